@@ -69,6 +69,32 @@ def vmapLazyI (p : List TOp) (i : Nat) (o : Int) (level : Nat) (l : LTD) : LTD :
   let b := BLTD.deriveProg p (addBDLazy i level l)
   removeBDLazy (normOutDim o b.batchRank) (l.dense.batch.getD i 0) b
 
+/-- `lazy.set(name, t)` inside the vmapped function with a value `t` that is NOT batched (it does not depend on
+the vmapped input).  Hidden-stack form: `hook_in` passes it through `_remove_batch_dim`, which expands an
+un-batched tensor to the vmap size along the hidden stack dimension, and the stack then unbinds it — every
+stacked tensordict receives the whole value.  Member-wise form: the value is unbound along the (visible)
+stack dimension `sd` and member `j` receives slice `j` for every sample. -/
+def BLTD.setConst (name : String) (t : T) : BLTD → BLTD
+  | .hooked sd ms lvl => .hooked sd (ms.map (fun m => ⟨m.batch, m.names, (m.leaves.filter (fun p => p.1 != name)) ++ [(name, t)]⟩)) lvl
+  | .plain sd ms => .plain sd (ms.zipIdx.map (fun (mj : BTD × Nat) =>
+      ⟨mj.1.batch, mj.1.names, mj.1.size, mj.1.level,
+       fun k => ((mj.1.sample k).filter (fun p => p.1 != name)) ++ [(name, select t sd mj.2)]⟩))
+  | .unhooked sd ms => .unhooked sd (ms.zipIdx.map (fun (mj : TD × Nat) =>
+      ⟨mj.1.batch, mj.1.names, (mj.1.leaves.filter (fun p => p.1 != name)) ++ [(name, select t sd mj.2)]⟩))
+
+/-- one operation of a program on a lazy stack: a member-wise derivation or the write of an un-batched value -/
+inductive LOp where
+  | derive (op : TOp)
+  | setConst (name : String) (t : T)
+
+def BLTD.runL (b : BLTD) : LOp → BLTD
+  | .derive op => b.derive op
+  | .setConst name t => b.setConst name t
+
+def vmapLazyL (p : List LOp) (i : Nat) (o : Int) (level : Nat) (l : LTD) : LTD :=
+  let b := p.foldl BLTD.runL (addBDLazy i level l)
+  removeBDLazy (normOutDim o b.batchRank) (l.dense.batch.getD i 0) b
+
 /-- `torch.vmap(f, in_dims=i, out_dims=o)(lazy)` for `f` = member-wise program `p`; `size` is the vmap size -/
 def vmapLazy (p : List TOp) (i o level : Nat) (l : LTD) : LTD :=
   removeBDLazy o (l.dense.batch.getD i 0) (BLTD.deriveProg p (addBDLazy i level l))
